@@ -133,6 +133,8 @@ def plan(tier, seed):
         cfg["design"]["max_eft"] = float(round(cfg["soil"]["undisturbed_temp"] + g.uniform(14, 24), 1))
         cfg["loads_desc"]["family"] = ["heating_only", "sinus", "atlanta_shift"][k % 3]
         cfg["loads_desc"]["scale"] = scale_loads_for(cfg, cfg["_class"], g)
+        if k % 2 == 1:
+            cfg["loads_desc"]["form"] = "int"  # whole watts as Python ints (JSON integers)
         cfg["_class"] = "limit-boundary"
         cfgs.append(cfg)
     return cfgs
